@@ -128,3 +128,46 @@ def docOK (xs : List XEv) : Bool :=
   | _ => docGo CkSt.init xs
 
 end Genshi.Xml
+
+namespace Genshi.Xml
+open Genshi
+
+/-! ### what the XML text syntax can express (hypothesis of the text-level theorems) -/
+
+/-- XML characters other than CR (which every XML reader turns into LF) -/
+def okStr (s : Str) : Bool := s.all fun c => Reader.isXmlChar c && c ≠ '\r'
+
+def attrValOK (v : Str) : Bool := v = noneUri || (okStr v && v.all fun c => c ≠ '\t' && c ≠ '\n')
+
+def flatAttrsOK (as : List (Str × Str)) : Bool := as.all fun a => Reader.validName a.1 && attrValOK a.2
+
+def commentOK (s : Str) : Bool := okStr s && !Reader.hasSub ['-', '-'] (s ++ ['-'])
+
+def piOK (t d : Str) : Bool :=
+  Reader.validName t && !List.elem ':' t && t.map Reader.lowerAscii ≠ ['x', 'm', 'l'] && okStr d &&
+  !(d.head?.map Reader.isSpace).getD false && !Reader.hasSub ['?', '>'] (d ++ ['?'])
+
+def cdataOK (s : Str) : Bool := okStr s && !Reader.hasSub [']', ']', '>'] (s ++ [']', ']'])
+
+def startsWithText : List FEv → Bool
+  | .other (.text _ _) :: _ => true
+  | _ => false
+
+/-- element content the text syntax can express, in the normal form in which a
+    tokenizer reports it: non-empty character data never adjacent to other
+    character data, CDATA sections holding at most one piece of text; no `Markup`
+    (pre-escaped) text, no declaration or doctype (prolog) -/
+def bodyOK : List FEv → Bool
+  | [] => true
+  | .start n a :: es => Reader.validName n && flatAttrsOK a && bodyOK es
+  | .empty n a :: es => Reader.validName n && flatAttrsOK a && bodyOK es
+  | .end_ n :: es => Reader.validName n && bodyOK es
+  | .other (.text s safe) :: es => !safe && !s.isEmpty && okStr s && !startsWithText es && bodyOK es
+  | .other (.comment s) :: es => commentOK s && bodyOK es
+  | .other (.pi t d) :: es => piOK t d && bodyOK es
+  | .other .startCdata :: .other (.text s safe) :: .other .endCdata :: es =>
+      !safe && !s.isEmpty && cdataOK s && bodyOK es
+  | .other .startCdata :: .other .endCdata :: es => bodyOK es
+  | _ => false
+
+end Genshi.Xml
